@@ -29,7 +29,7 @@ ARRANGEMENTS = [list(p) for n in (1, 2, 3) for p in itertools.permutations(RSA_F
 
 # legitimate variations of the certificate fields around the CA key (ssh-keygen -h without -n gives no principals; -I "" an empty key id; -O options; long validity)
 CERT_VARIANTS = [{}, {'principals': []}, {'key_id': ''}, {'principals': ['a.example', 'b.example', 'c.example'], 'key_id': 'k' * 200}, {'serial': 2 ** 63, 'valid_after': 1, 'valid_before': 2 ** 40},
-                 {'extensions_hex': (b'\x00\x00\x00\x15permit-X11-forwarding\x00\x00\x00\x00').hex(), 'principals': []}, {'key_id': '', 'principals': []}]
+                 {'extensions_hex': (b'\x00\x00\x00\x15permit-X11-forwarding\x00\x00\x00\x00').hex(), 'principals': []}, {'key_id': '', 'principals': []}, {'pubkey_zero': 1}, {'pubkey_zero': 5}]
 
 
 def cases(tier, seed):
